@@ -40,6 +40,7 @@ var utInfos = []utInfo{
 	{ifs: []int{0}},           // 30: the holder with a second P0 / X1 pair in an embedded struct
 	{ifs: []int{0, 2}, runner: true}, // 31: the fourth twin (an application runner)
 	{ifs: []int{0}},                  // 32: the holder with real `func:"…"` struct tags (FQ, FS)
+	{ifs: []int{0, 1}},               // 33: the holder with an embedded `*T0` that carries a real wire tag
 }
 
 var namePool = []string{"a", "b", "c", "d", "e", "f", "ga", "gz", "h", "k", "la", "lz", "m", "n", "p", "q", "s", "t", "u", "w", "x", "y", "za", "zz"}
@@ -1117,6 +1118,8 @@ func graphCorpus(w *hx.Writer) {
 		}
 	}
 	graphCorpus7(r, w, 12, "corpus")
+	graphCorpus8(r, w, 10, "corpus")
+	emitGraph(genHugeScan(r.Fork()), []string{"corpus", "hugescan"}, w)
 }
 
 // ---- seventh round
@@ -1324,6 +1327,143 @@ func graphCorpus7(r *hx.Rng, w *hx.Writer, n int, tag string) {
 	}
 }
 
+// ---- eighth round
+
+// more singletons than one batch of anything: the definition scan, the registries and the sorted creation all see > 128 names
+func genHugeScan(r *hx.Rng) *gScen {
+	g := newBuilder(r)
+	n := 131 + r.Intn(12)
+	for i := 0; i < n; i++ {
+		g.addNode([]int{0, 1, 2, 8, 13, 16, 17}[r.Intn(7)], false)
+	}
+	if len(g.sc.nodes) > 3 {
+		g.sc.nodes[1].slots["S0"] = "w,required=false"
+	}
+	return g.sc
+}
+
+// a holder whose configuration can never be bound (a list where a struct is expected): eager — the start fails —, or lazy and
+// looked up after the start: every lookup fails, nothing of it is ever published
+func genUnbindable(r *hx.Rng) *gScen {
+	g := newBuilder(r)
+	np := 1 + r.Intn(3)
+	for i := 0; i < np; i++ {
+		g.addNode(g.randType(func(u utInfo) bool { return len(u.ifs) > 0 && !u.pp && !u.lazy && !u.runner }), r.P(1, 3))
+	}
+	lazy := r.P(3, 4)
+	var h int
+	if lazy {
+		h = g.addNode([]int{5, 7, 12}[r.Intn(3)], r.P(1, 2))
+		g.sc.nodes[h].flt = fltLookup
+	} else {
+		h = g.addNode(g.randType(func(u utInfo) bool { return !u.pp && !u.lazy }), r.P(1, 2))
+	}
+	g.sc.nodes[h].cfg = 13
+	if r.P(1, 2) {
+		g.sc.nodes[h].slots["S0"] = "w,required=false"
+	}
+	if lazy && r.P(1, 2) { // a second lazy holder that is fine
+		k := g.addNode([]int{5, 7, 12}[r.Intn(3)], r.P(1, 2))
+		g.sc.nodes[k].flt = fltLookup
+		g.sc.nodes[k].cfg = []int{0, 8, 11}[r.Intn(3)]
+	}
+	return g.sc
+}
+
+// history 4: the same objects were started before under OTHER custom names (every custom-named node had the next one's name)
+func genRenamed(r *hx.Rng) *gScen {
+	g := newBuilder(r)
+	n := 2 + r.Intn(3)
+	for i := 0; i < n; i++ {
+		g.addNode(g.randType(func(u utInfo) bool { return len(u.ifs) > 0 && !u.pp && !u.lazy }), false)
+	}
+	if r.P(1, 2) {
+		g.addNode(g.randType(func(u utInfo) bool { return len(u.ifs) > 0 && !u.pp && !u.lazy }), true)
+	}
+	h := g.addNode(g.randType(func(u utInfo) bool { return !u.pp }), false)
+	g.edgeByName(h, r.Intn(n), false)
+	if r.P(1, 2) {
+		g.edgeByName(h, r.Intn(n), r.P(1, 2))
+	}
+	if r.P(1, 2) {
+		g.sc.nodes[h].slots["S0"] = "w"
+	}
+	g.sc.hist = 4
+	return g.sc
+}
+
+// the holder with an embedded pointer field `*T0` that carries a real wire tag (optional): filled with the T0 component when
+// there is exactly one to choose, left nil without one
+func genEmbeddedPointer(r *hx.Rng) *gScen {
+	g := newBuilder(r)
+	switch r.Intn(3) {
+	case 0:
+		g.addNode(0, r.P(1, 2))
+	case 1:
+		g.addNode(0, true)
+		g.addNode(1, r.P(1, 2))
+	default:
+		g.addNode(1, r.P(1, 2)) // no T0 at all: the point stays nil
+	}
+	h := g.addNode(33, r.P(1, 2))
+	if r.P(1, 2) {
+		g.sc.nodes[h].slots["X0"] = "w" + []string{"", ",required=false"}[r.Intn(2)]
+	}
+	if r.P(1, 3) {
+		k := g.addNode(g.randType(func(u utInfo) bool { return !u.pp }), r.P(1, 2))
+		g.sc.nodes[k].slots["S1"] = "w"
+	}
+	return g.sc
+}
+
+// components that are not structs (pointer to a named integer, pointer to a named slice) among the candidates of interface
+// and `any` points
+func genNonStruct(r *hx.Rng) *gScen {
+	g := newBuilder(r)
+	g.sc.zs = []int{6, 7, 7}[r.Intn(3)]
+	if r.P(1, 2) {
+		g.addNode([]int{0, 1, 3}[r.Intn(3)], r.P(1, 2))
+	}
+	nh := 1 + r.Intn(2)
+	for j := 0; j < nh; j++ {
+		h := g.addNode(g.randType(func(u utInfo) bool { return !u.pp && len(u.ifs) == 0 || u.closer && !u.runner }), r.P(1, 2))
+		g.sc.nodes[h].slots["S0"] = "w"
+		if r.P(1, 2) {
+			g.sc.nodes[h].slots["S1"] = "w,required=false"
+		}
+		if r.P(1, 2) {
+			g.sc.nodes[h].slots["AS0"] = "w"
+		}
+	}
+	return g.sc
+}
+
+var usedIocRegister bool
+
+// history 3: runners, closers and providers of a slice point; the FIRST half is registered through ioc.Register
+func genIocEntry(r *hx.Rng) *gScen {
+	g := newBuilder(r)
+	g.addNode(8, r.P(1, 2))  // runner
+	g.addNode(13, r.P(1, 2)) // closer
+	g.addNode(0, false)
+	g.addNode(9, false) // runner + closer
+	g.addNode(1, r.P(1, 2))
+	h := g.addNode(2, false)
+	g.sc.nodes[h].slots["S0"] = "w"
+	g.sc.nodes[h].slots["A0"] = "w" + g.nameOf(2)
+	g.sc.hist = 3
+	return g.sc
+}
+
+func graphCorpus8(r *hx.Rng, w *hx.Writer, n int, tag string) {
+	for i := 0; i < n; i++ {
+		emitGraph(genUnbindable(r.Fork()), []string{tag, "unbindable"}, w)
+		emitGraph(genRenamed(r.Fork()), []string{tag, "renamed"}, w)
+		emitGraph(genEmbeddedPointer(r.Fork()), []string{tag, "embeddedptr"}, w)
+		emitGraph(genNonStruct(r.Fork()), []string{tag, "nonstruct"}, w)
+	}
+}
+
 func graphGen(rng *hx.Rng, n int, tier string, w *hx.Writer) {
 	maxN := 7
 	if tier == "thorough" {
@@ -1433,6 +1573,14 @@ func graphGen(rng *hx.Rng, n int, tier string, w *hx.Writer) {
 	// seventh-round templates, seeded (drawn after everything else: the streams above are as they were)
 	if active() {
 		graphCorpus7(rng.Fork(), w, n/120+1, "round7")
+		graphCorpus8(rng.Fork(), w, n/150+1, "round8")
+		// the start through ioc.Register + ioc.Run: ONE per process, the very last start of the run (ioc.Register's list is
+		// package-level and is never cleared)
+		if !usedIocRegister {
+			usedIocRegister = true
+			last := genIocEntry(rng.Fork())
+			emitGraph(last, []string{"round8", "iocregister"}, w)
+		}
 	}
 	_ = sort.Strings
 }
